@@ -45,7 +45,7 @@ def run(ctx):
     if not vc.prepare(ctx, 'C12'):
         return rep.finish({'evaluations': 0, 'distinct_nontrivial': 0, 'rule': 'harness did not build', 'samples': []}, [])
     quick = ctx.tier == 'quick'
-    n = 1200 if quick else 20000
+    n = 3000 if quick else 20000
     g = schedgen.SchedGen(ctx.rng.fork('sched'), max_scripts=4 if quick else 5)
     cases = []
     for i in range(n):
